@@ -18,6 +18,7 @@ except ImportError:  # pragma: no cover
 from collections import OrderedDict
 
 import attr
+import dateutil.tz
 import six
 import urllib3
 
@@ -118,6 +119,17 @@ class Serializable(object):  # pylint: disable=too-few-public-methods
             return sorted(set_value, key=repr)
 
     @staticmethod
+    def _datetime_result(obj):
+        # equal instants are rendered equally, whatever UTC offset they carry
+        if obj.tzinfo is not None:
+            try:
+                obj = obj.astimezone(dateutil.tz.UTC)
+            except (OverflowError, ValueError):
+                pass
+
+        return str(obj)
+
+    @staticmethod
     def _json_result(obj):
         if isinstance(obj, enum.Enum):
             if isinstance(obj.value, CryptoDataParamsBase):
@@ -128,6 +140,8 @@ class Serializable(object):  # pylint: disable=too-few-public-methods
             result = obj
         elif isinstance(obj, (bytes, bytearray)):
             result = bytes_to_hex_string(obj, separator=':', lowercase=False)
+        elif isinstance(obj, datetime.datetime):
+            result = Serializable._datetime_result(obj)
         else:
             result = str(obj)
 
@@ -257,6 +271,8 @@ class Serializable(object):  # pylint: disable=too-few-public-methods
             return False, str(obj)
         elif isinstance(obj, datetime.timedelta):
             return False, str(obj.seconds)
+        elif isinstance(obj, datetime.datetime):
+            result = cls.post_text_encoder(Serializable._datetime_result(obj), level)
         elif isinstance(obj, CryptoDataParamsBase) and hasattr(obj, '__str__'):
             return False, str(obj)
         elif attr.has(type(obj)):
